@@ -4,6 +4,8 @@ from __future__ import annotations
 import ast
 
 from ..amatch import AM
+from ..effects import Effects
+from ..flow import expand
 from ..report import AnalysisError
 from ..srcmodel import norm
 from ..state import StateAnalysis, self_attr
@@ -119,7 +121,74 @@ def rule_c(ctx):
     ctx.ob(R, nm.qname, "normalize integrates both images with the same geometry and weights the image by reference/original", ok, str(am.show()), nm.node)
 
 
+def rule_d(ctx):
+    R = "C03.d"
+    ctx.rule(R, "the weights handed to a geometry are read, not consumed: no constructor of integration.py modifies one of its arguments "
+             "(effect summaries; a porosity / depth array multiplied in place makes the next geometry built from the same array integrate "
+             "with the product of the earlier factors)")
+    m = ctx.model
+    E = Effects(m)
+    mod = m.mod(MOD)
+    n = 0
+    for k in mod.classes.values():
+        init = k.methods.get("__init__")
+        if init is None:
+            continue
+        n += 1
+        ctx.instance(R)
+        for p in init.params[1:]:
+            ev = E.events_on(init, p)
+            ctx.ob(R, init.qname, f"argument `{p}` is not modified", not ev, "; ".join(str(e) for e in ev[:2])[:240], init.node)
+    ctx.floor(R, 4)
+
+
+def rule_e(ctx):
+    R = "C03.e"
+    ctx.rule(R, "normalisation weights every time step and component by its own ratio: in darsia.weight the branch for an array weight of "
+             "the payload shape multiplies the data by that array broadcast over all voxels -- recognised idioms: the array itself "
+             "(trailing-axis broadcasting), np.outer(np.ones(<spatial shape>), weight).reshape(<data shape>), np.broadcast_to(weight, "
+             "<data shape>); np.kron in the place of np.outer permutes the entries of a 2-d weight")
+    m = ctx.model
+    ARI = "darsia.image.arithmetics"
+    ctx.consult(ARI)
+    f = m.func(ARI, "weight")
+    w = f.params[1]
+    ctx.instance(R)
+    arms = [n for n in ast.walk(f.node) if isinstance(n, ast.If) and any(isinstance(c, ast.Call) and norm(c.func) == "isinstance" and [norm(a) for a in c.args] == [w, "np.ndarray"] for c in ast.walk(n.test))]
+    ctx.need(len(arms) == 1, f"{f.qname}: branch for an array weight not found")
+    body = arms[0].body
+    am = AM(f)
+    muls = [s_ for s_ in body if isinstance(s_, (ast.Assign, ast.AugAssign))]
+    ok = False
+    desc = ""
+    if len(muls) == 1:
+        st = muls[0]
+        if isinstance(st, ast.AugAssign) and isinstance(st.op, ast.Mult):
+            factor = st.value
+        elif isinstance(st, ast.Assign) and isinstance(st.value, ast.Call) and norm(st.value.func) == "np.multiply" and len(st.value.args) == 2:
+            factor = st.value.args[1]
+        elif isinstance(st, ast.Assign) and isinstance(st.value, ast.BinOp) and isinstance(st.value.op, ast.Mult):
+            factor = st.value.right
+        else:
+            factor = None
+        if factor is not None:
+            fx = expand(f.node, factor)
+            desc = norm(fx)[:160]
+            wi = f"{f.params[0]}.copy()"
+            good = (f"np.outer(np.ones({wi}.coordinatesystem.shape, dtype=float), {w}).reshape({wi}.img.shape)",
+                    f"np.outer(np.ones({wi}.coordinatesystem.shape), {w}).reshape({wi}.img.shape)",
+                    f"np.outer(np.ones({wi}.img.shape[:{wi}.space_dim]), {w}).reshape({wi}.img.shape)",
+                    f"np.broadcast_to({w}, {wi}.img.shape)", w)
+            ok = any(am.eq(fx, g) for g in good)
+            if not ok and not any(isinstance(c, ast.Call) and norm(c.func) in ("np.kron", "np.tile", "np.repeat", "np.outer") for c in ast.walk(fx)):
+                raise AnalysisError(f"{f.qname}: unrecognised broadcasting idiom `{desc}` in the array-weight branch")
+    ctx.ob(R, f.qname, "array weight: every voxel is multiplied by the weight array itself (outer product with ones, reshaped to the data shape)", ok, desc, arms[0])
+    ctx.floor(R, 1)
+
+
 def run(ctx):
     rule_a(ctx)
     rule_b(ctx)
     rule_c(ctx)
+    rule_d(ctx)
+    rule_e(ctx)
